@@ -42,6 +42,28 @@ def in_crate_sinks(f, rep, X=None, rule='sink-agreement', floor=True):
         ov = f.trait_impls[('AmlSink', s)]
         rep.ob(rule, '%s implements byte' % s, 'byte' in ov, 'sink %s lacks the mandatory method' % s)
         kinds = {}
+        if s == 'sdt::Sdt':
+            # the generic table: every overridden entry point appends the bytes to the image (length field and checksum are
+            # C02's and C01's clauses); the entry points it does not override are the byte-wise defaults decided above
+            import sdtsink
+            from rules.C13 import folded
+            cs = sdtsink.cases(f)
+            rep.ob(rule, 'sdt::Sdt overrides byte', any(m == 'byte' for _, m, _ in cs), 'Sdt lacks the mandatory method')
+            for label, meth, mk in cs:
+                I, sv, old, want = sdtsink.run_case(f, meth, mk)
+                for c in I.calls_seen: rep.analysed.add(c)
+                subj = '%s as AmlSink::%s' % (s, label)
+                if I.tops: rep.undecided(rule, subj, I.tops, None); continue
+                sym.CTX = I.st.ranges
+                try:
+                    facts = [c for c, _ in I.st.facts]
+                    nf = folded(sv.fields['data'], facts)
+                    ok = nf is not None and segs_equal(nf[0], [('raw', ('a', 'self.data'), old)] + list(want), facts)[0] and all(lo == C(4) and hi == C(8) for lo, hi, _ in nf[1])
+                finally:
+                    sym.CTX = {}
+                rep.ob(rule, subj, ok, 'after %s the table holds %s (writes %s); specified: the old image followed by the bytes delivered'
+                       % (label, show_segs(nf[0]) if nf else None, [(show(a), show(b_)) for a, b_, _ in nf[1]] if nf else None), detail={'image': show_segs(nf[0]) if nf else None})
+            continue
         for meth in SINK_METHODS:
             I = new_interp(f, abstract=())
             sv = I.sym_value(norm_ty(s), 'self')
